@@ -27,6 +27,8 @@ func main() {
 		codecMain(os.Args[2:])
 	case "doc":
 		docMain(os.Args[2:])
+	case "url":
+		urlMain(os.Args[2:])
 	case "schema":
 		schemaMain(os.Args[2:])
 	default:
